@@ -432,19 +432,25 @@ class MacroProgram(ElementProgram):
                 )
 
             def CASE(node):
+                # The case expression is evaluated once (cached) and
+                # only if no earlier case has matched.
                 return nodes.Define(
                     [nodes.Alias(["default"], self.default_marker)],
                     nodes.Condition(
-                        nodes.And([
-                            nodes.BinOp(
-                                switch, nodes.IsNot, self._cancel_marker),
-                            nodes.Or([
-                                nodes.BinOp(value, nodes.Equals, switch),
-                                nodes.BinOp(
-                                    value, nodes.Equals, self.default_marker)
-                            ])
-                        ]),
-                        nodes.Cancel([switch], node, self._cancel_marker),
+                        nodes.BinOp(
+                            switch, nodes.IsNot, self._cancel_marker),
+                        nodes.Cache(
+                            [value],
+                            nodes.Condition(
+                                nodes.Or([
+                                    nodes.BinOp(value, nodes.Equals, switch),
+                                    nodes.BinOp(
+                                        value, nodes.Equals,
+                                        self.default_marker)
+                                ]),
+                                nodes.Cancel(
+                                    [switch], node, self._cancel_marker),
+                            ))
                     ))
 
         # tal:repeat
